@@ -15,7 +15,8 @@ QV.C12.Lemmas — the relations the generic soundness proof (`Hoare.lean`) is in
    value).  `Refines o r`: wherever `o` is defined, `r` is defined with the same value.  One lemma per arm; the arm
    `0^e ⇒ 0` is the only one that is not an identity (`powZeroBase_unsound`), and is excluded through `bad`.
 2. `varsRel` — no new variables, no new memory references; needs no laws at all (holds for `CFloat` too).
-3. `ScalarLaws ℚ` is inhabited (non-vacuity).
+3. `piRel` — no `pi`: a `pi`-free expression stays `pi`-free; no laws either.
+4. `ScalarLaws ℚ` is inhabited (non-vacuity).
 -/
 namespace QV.C12
 open QV Expr
@@ -34,6 +35,7 @@ structure ScalarLaws (K : Type) [Field K] [SimpScalar K] : Prop where
   zero : (Scalar.zero : K) = 0
   one : (Scalar.one : K) = 1
   two : (SimpScalar.two : K) = 2
+  negOne : (SimpScalar.negOne : K) = -1
   isZero : ∀ x : K, SimpScalar.isZero x = true ↔ x = 0
   isOne : ∀ x : K, SimpScalar.isOne x = true ↔ x = 1
   eqv : ∀ x y : K, SimpScalar.eqv x y = true ↔ x = y
@@ -207,7 +209,7 @@ evaluation of every subexpression variable, finish by field arithmetic under the
 macro "eval_id" L:term : tactic => `(tactic| (
   intro ρ μ v h
   simp only [evalD_plus $L, evalD_minus $L, evalD_star $L, evalD_slash $L, evalD_caret $L, evalD_neg $L, evalD_pos,
-    evalD_num, ($L).zero, ($L).one, ($L).two, ($L).neg] at h ⊢
+    evalD_num, ($L).zero, ($L).one, ($L).two, ($L).negOne, ($L).neg] at h ⊢
   repeat' (generalize hg : evalD ρ μ _ = o at h ⊢; cases o <;>
     simp only [Option.bind_some, Option.bind_none, Option.map_some, Option.map_none] at h ⊢)
   all_goals fin_id))
@@ -220,8 +222,8 @@ theorem id_piNum : Refines (.pi : Expr K) (.number Scalar.pi) := fun _ _ _ h => 
 theorem id_callFold (f : ExprFn) (z : K) : Refines (.call f (.number z)) (.number (calcFn f z)) :=
   fun _ _ _ h => by simpa [evalD] using h
 theorem id_prePlus (e : Expr K) : Refines (.pre .plus e) e := by eval_id L
-theorem id_preNegNum (z : K) : Refines (.pre .minus (.number z)) (.number (Scalar.neg z)) :=
-  fun _ _ _ h => by simpa [evalD] using h
+theorem id_preNegNum (z : K) : Refines (.pre .minus (.number z)) (.number (Scalar.sub Scalar.zero z)) :=
+  fun _ _ _ h => by simpa [evalD, L.neg, L.sub, L.zero] using h
 theorem id_preNegNeg (e : Expr K) : Refines (.pre .minus (.pre .minus e)) e := by eval_id L
 
 theorem id_addZeroL {x : K} (r : Expr K) (hz : SimpScalar.isZero x = true) :
@@ -288,10 +290,10 @@ theorem id_negNeg {op : InfixOp} (a b : Expr K) (h : isMulDiv op = true) :
     Refines (.bin (.pre .minus a) op (.pre .minus b)) (.bin a op b) := by
   cases op <;> simp [isMulDiv] at h <;> eval_id L
 theorem id_divNegSelfR {l e : Expr K} (hb : beqE l e = true) :
-    Refines (.bin l .slash (.pre .minus e)) (.number (Scalar.neg Scalar.one)) := by
+    Refines (.bin l .slash (.pre .minus e)) (.number SimpScalar.negOne) := by
   cases beqE_eq L hb; eval_id L
 theorem id_divNegSelfL {e r : Expr K} (hb : beqE e r = true) :
-    Refines (.bin (.pre .minus e) .slash r) (.number (Scalar.neg Scalar.one)) := by
+    Refines (.bin (.pre .minus e) .slash r) (.number SimpScalar.negOne) := by
   cases beqE_eq L hb; eval_id L
 theorem id_negR {op : InfixOp} (l e : Expr K) (h : isMulDiv op = true) :
     Refines (.bin l op (.pre .minus e)) (.bin (.pre .minus l) op e) := by
@@ -365,6 +367,12 @@ theorem id_mulDivCancelR {l other same : Expr K} (hb : beqE l same = true) :
 /-- **The relation of the value theorem**: `Refines`, with the arm `0^e ⇒ 0` declared `bad`. -/
 def valueRel : Rel K (fun a => a = Arm.powZeroBase) where
   R := Refines
+  Pre := fun _ => True
+  preBin := by simp
+  prePre := by simp
+  preCall := by simp
+  preNum := fun _ => trivial
+  keep := fun _ _ => trivial
   refl := Refines.rfl'
   trans := Refines.trans'
   beqL := fun h => by cases beqE_eq L h; exact Refines.rfl' _
@@ -498,6 +506,12 @@ macro "leaves_beq" h:term : tactic => `(tactic| (
 /-- **The relation of "no new variables or memory references"**; no arm is excluded. -/
 def varsRel : Rel K (fun _ => False) where
   R := SubLeaves
+  Pre := fun _ => True
+  preBin := by simp
+  prePre := by simp
+  preCall := by simp
+  preNum := fun _ => trivial
+  keep := fun _ _ => trivial
   refl := fun e => ⟨fun _ h => h, fun _ h => h⟩
   trans := fun h1 h2 => ⟨fun x hx => h1.1 x (h2.1 x hx), fun a ha => h1.2 a (h2.2 a ha)⟩
   beqL := fun h => by have hh := beqE_leaves h; exact ⟨fun x hx => hh.1 ▸ hx, fun a ha => hh.2 ▸ ha⟩
@@ -564,6 +578,120 @@ def varsRel : Rel K (fun _ => False) where
 
 end vars
 
+
+/-! ### No `pi` (no laws needed) -/
+
+section pifree
+variable {K : Type} [SimpScalar K]
+
+theorem beqWith_piFree {eq : K → K → Bool} :
+    ∀ a b : Expr K, Expr.beqWith eq a b = true → piFree a = piFree b := by
+  intro a
+  induction a with
+  | address r => intro b h; cases b <;> simp_all [Expr.beqWith, piFree]
+  | call f e ih =>
+    intro b h
+    cases b with
+    | call g e' => simp only [Expr.beqWith, Bool.and_eq_true] at h; simpa [piFree] using ih _ h.2
+    | _ => simp [Expr.beqWith] at h
+  | bin l o r ihl ihr =>
+    intro b h
+    cases b with
+    | bin l' o' r' =>
+      simp only [Expr.beqWith, Bool.and_eq_true] at h
+      simp [piFree, ihl _ h.1.2, ihr _ h.2]
+    | _ => simp [Expr.beqWith] at h
+  | number z => intro b h; cases b <;> simp_all [Expr.beqWith, piFree]
+  | pi => intro b h; cases b <;> simp_all [Expr.beqWith, piFree]
+  | pre o e ih =>
+    intro b h
+    cases b with
+    | pre o' e' => simp only [Expr.beqWith, Bool.and_eq_true] at h; simpa [piFree] using ih _ h.2
+    | _ => simp [Expr.beqWith] at h
+  | var x => intro b h; cases b <;> simp_all [Expr.beqWith, piFree]
+
+theorem beqE_piFree {a b : Expr K} (h : beqE a b = true) : piFree a = piFree b := beqWith_piFree a b h
+
+macro "pi_id" : tactic => `(tactic| (
+  intros
+  simp only [piFree, Bool.and_eq_true, Bool.true_and, Bool.and_true] at * <;> tauto))
+
+macro "pi_beq" h:term : tactic => `(tactic| (
+  have hh := beqE_piFree $h
+  simp only [piFree, Bool.and_eq_true, Bool.true_and, Bool.and_true, hh] at * <;> tauto))
+
+/-- **The relation of "no `pi`"**: if the original contains no `pi`, neither does the replacement; the class of
+expressions is "contains no `pi`".  No arm is excluded. -/
+def piRel : Rel K (fun _ => False) where
+  R := fun o r => piFree o = true → piFree r = true
+  Pre := fun e => piFree e = true
+  preBin := by simp [piFree]
+  prePre := by simp [piFree]
+  preCall := by simp [piFree]
+  preNum := fun _ => rfl
+  keep := fun h hp => h hp
+  refl := fun _ h => h
+  trans := fun h1 h2 h => h2 (h1 h)
+  beqL := fun h => by rw [beqE_piFree h]; exact id
+  beqR := fun h => by rw [beqE_piFree h]; exact id
+  congBin := fun op h1 h2 => by simp only [piFree, Bool.and_eq_true]; exact fun h => ⟨h1 h.1, h2 h.2⟩
+  congPre := fun op h => by simpa [piFree] using h
+  congCall := fun f h => by simpa [piFree] using h
+  numEqv := fun _ => by pi_id
+  piNum := by pi_id
+  callFold := by pi_id
+  prePlus := by pi_id
+  preNegNum := by pi_id
+  preNegNeg := by pi_id
+  addZeroL := by pi_id
+  addZeroR := by pi_id
+  subZeroL := by pi_id
+  subZeroR := by pi_id
+  subSelf := fun h => by pi_id
+  mulZeroL := by pi_id
+  mulZeroR := by pi_id
+  mulOneL := by pi_id
+  mulOneR := by pi_id
+  divZeroL := by pi_id
+  divByZero := by pi_id
+  divOne := by pi_id
+  divSelf := fun h => by pi_id
+  powZeroExp := by pi_id
+  powZeroBase := by pi_id
+  powOneBase := by pi_id
+  powOneExp := by pi_id
+  fold := by pi_id
+  addNegR := by pi_id
+  addNegL := by pi_id
+  subNegR := by pi_id
+  subNegL := by pi_id
+  negNeg := by pi_id
+  divNegSelfR := fun h => by pi_id
+  divNegSelfL := fun h => by pi_id
+  negR := by pi_id
+  negL := by pi_id
+  affine1 := fun h => by pi_beq h
+  affine2 := fun h => by pi_beq h
+  affine3 := fun h => by pi_beq h
+  affine4 := fun h => by pi_beq h
+  mulCommon := fun h => by pi_beq h
+  addCommon := fun h => by pi_beq h
+  assocR := by pi_id
+  pseudoAssocR := by pi_id
+  assocL := by pi_id
+  distR := by pi_id
+  distL := by pi_id
+  mulDivCancelL1 := fun h => by pi_beq h
+  mulDivCancelL2 := fun h => by pi_beq h
+  divMulCancelR1 := fun h => by pi_beq h
+  divMulCancelR2 := fun h => by pi_beq h
+  mulInDivL := by pi_id
+  mulInDivR := by pi_id
+  divMulCancelL := fun h => by pi_beq h
+  mulDivCancelR := fun h => by pi_beq h
+
+end pifree
+
 /-! ### `ScalarLaws` is inhabited: the rationals, with `pow` any function satisfying the three laws -/
 
 instance ratSimpScalar : SimpScalar ℚ where
@@ -586,6 +714,7 @@ instance ratSimpScalar : SimpScalar ℚ where
   eqv x y := decide (x = y)
   nan := 0
   two := 2
+  negOne := -1
 
 theorem ratLaws : ScalarLaws ℚ where
   add := fun _ _ => rfl
@@ -596,6 +725,7 @@ theorem ratLaws : ScalarLaws ℚ where
   zero := rfl
   one := rfl
   two := rfl
+  negOne := rfl
   isZero := fun x => by simp [SimpScalar.isZero]
   isOne := fun x => by simp [SimpScalar.isOne]
   eqv := fun x y => by simp [SimpScalar.eqv]
